@@ -153,6 +153,14 @@ theorem rhel_last_layer_wins (arts : List Layer) (r : Report) (h : rhelCoalesce 
     (aget id r.pkgs).isSome ↔ ∃ q ∈ lastPkgs arts, q.id = id :=
   rhelCoalesce_ids arts r h id
 
+/-- … and, database by database: every environment of a reported id names a database in which the last
+    package-bearing layer holds the package (a package that moved to another database is not reported under
+    the old one). -/
+theorem rhel_last_layer_wins_with_database (arts : List Layer) (r : Report) (h : rhelCoalesce arts = .ok r)
+    (id : String) (es : List Env) (hes : aget id r.envs = some es) (e : Env) (he : e ∈ es) :
+    ∃ q ∈ lastPkgs arts, q.id = id ∧ q.db = e.db :=
+  rhelCoalesce_env_in_last h hes he
+
 /-! ## Part 3 — the whole coalesce step: coalescers, MergeSR, whiteout resolver, IndexRecords -/
 
 /-- `report_wellformed` for `MergeSR ∘ Resolve`, for ALL per-ecosystem artifact lists and
@@ -210,6 +218,27 @@ theorem index_records_resolve (layers : List String) (ecos : List (Kind × List 
   refine ⟨id, es, e, h1, h2, h3, h4, h5, fun hne => ?_⟩
   obtain ⟨_, _, _, h7⟩ := h6 hne
   exact h7 trivial
+
+/-- `IndexRecords` is complete, for ALL reports: every (package, environment) yields a record per repository
+    id of the environment — or one record without repository when the environment names none — carrying the
+    lookups of the environment's distribution and of that repository id. -/
+theorem index_records_complete (r : Report) (id : String) (p : Pkg) (hp : (id, p) ∈ r.pkgs)
+    (e : Env) (he : e ∈ (aget p.id r.envs).getD []) :
+    (e.repoIds = [] → { pkg := p, dist := aget e.distId r.dists, repo := none } ∈ indexRecords r) ∧
+    ∀ rid ∈ e.repoIds, { pkg := p, dist := aget e.distId r.dists, repo := aget rid r.repos } ∈ indexRecords r := by
+  constructor
+  · intro hnil
+    simp only [indexRecords, List.mem_flatMap]
+    exact ⟨(id, p), hp, e, he, by simp [envRecords, hnil]⟩
+  · intro rid hrid
+    simp only [indexRecords, List.mem_flatMap]
+    refine ⟨(id, p), hp, e, he, ?_⟩
+    have hne : e.repoIds.isEmpty = false := by
+      cases h : e.repoIds with
+      | nil => rw [h] at hrid; simp at hrid
+      | cons x xs => rfl
+    simp only [envRecords, hne, Bool.false_eq_true, if_false, List.mem_map]
+    exact ⟨rid, hrid, rfl⟩
 
 /-- The resolver's `ir.Environments[pkgID][0]` is an index-out-of-range panic on a report with a
     package that has no environment: well-formedness of the coalescers' output is what keeps
